@@ -32,9 +32,10 @@ def spec(tier):
                                   timeout=1200 if th else 600))
     # timing of starts and suspension symbolic
     for oc in (False, True):
-        obs.append(CH(name=f"timing_oc{int(oc)}", harness="c04.memory_step",
-                      sym=dict(t1=I(0, 3), t2=I(0, 3), sus_at=I(-1, 4), dA=I(1, 3), x0=I(0, 12)),
-                      fixed=dict(oc=oc, kinds=["F", "G", "F"], cap=60 if oc else 200, a0=10, a1=45, a2=30, x1=45, x2=20), timeout=900))
+      for t1v in (0, 1, 2, 3):
+        obs.append(CH(name=f"timing_oc{int(oc)}_t{t1v}", harness="c04.memory_step",
+                      sym=dict(t2=I(0, 3), sus_at=I(-1, 4), dA=I(1, 3), x0=I(0, 12)),
+                      fixed=dict(oc=oc, kinds=["F", "G", "F"], cap=60 if oc else 200, a0=10, a1=45, a2=30, x1=45, x2=20, t1=t1v), timeout=900))
     # full simulations under the shipped schedulers
     from vf.props.common import pipe
     for algo, pools, oc in (("naive", 2, False), ("priority", 1, False), ("priority-pool", 2, False), ("overbook", 1, True)):
